@@ -736,3 +736,89 @@ func blockInCycle(b *ssa.BasicBlock) bool {
 	}
 	return false
 }
+
+// ruleSingleIteratorScan (C17): a coin query walks the unspent rows through one iterator.
+func ruleSingleIteratorScan(c *report.Ctx) {
+	p := c.P
+	c.Rule("single-iterator-scan", "in the coin queries of UtxoStore (ScriptAddressBalance, ScriptAddressUnspents and what they reach inside txmgr) a Bucket.NewIterator call is not repeated in a loop: read transactions take no snapshot (recorded C17 finding), but one LevelDB iterator is a snapshot of its own — a scan split over several iterators lets a block commit land between two pages, so the answer holds a coin of an earlier page together with the change the committed block paid for spending it", 2)
+	n := 0
+	for _, name := range []string{"ScriptAddressBalance", "ScriptAddressUnspents"} {
+		root := fn(c, pkgTxmgr, "UtxoStore", name)
+		if root == nil {
+			continue
+		}
+		fs := reachIn(p, root, pkgTxmgr)
+		for _, g := range append([]*ssa.Function{}, fs...) {
+			fs = append(fs, g.AnonFuncs...)
+		}
+		seen := map[*ssa.Function]bool{}
+		for _, g := range fs {
+			if seen[g] {
+				continue
+			}
+			seen[g] = true
+			for i, s := range invokes(g, pkgDB, "Bucket", "NewIterator") {
+				n++
+				key := siteKey(g, "NewIterator@"+name, i+1)
+				if loopHeaderOf(s.Block()) != nil {
+					c.Fail(key, "the query opens a new iterator per page of unspent rows: a block committed between two pages is seen by the later pages only — a spent coin of an earlier page is reported together with its own change (balance and coin list of no single block boundary)", posOf(c, s))
+				} else {
+					c.OK(key, "one iterator for the whole scan", posOf(c, s))
+				}
+			}
+		}
+	}
+	if n == 0 {
+		c.Fail("coin-query-iterators", "the coin queries no longer iterate the unspent bucket (anchor lost)", "")
+	}
+}
+
+// ruleStakingUseMarksStandardForm (C12, C07): an address whose only history is staking deposits is listed as used.
+func ruleStakingUseMarksStandardForm(c *report.Ctx) {
+	p := c.P
+	c.Rule("staking-use-marks-standard-form", "WalletManager.GetAddresses, when it merges the staking-form address records into the standard listing, sets Used on the standard entry it found in the listing (the comma-ok lookup hit) for a staking record that is used: a restored wallet registers every rediscovered key under its standard form with height 0 while a staking deposit marks only the staking-form record, so without this step an address paid to only through staking deposits is listed unused after a restore (and counted as unused by the address-gap accounting)", 1)
+	f := fn(c, pkgWallet, "WalletManager", "GetAddresses")
+	ad := p.Type(pkgTxmgr, "AddressDetail")
+	if f == nil || ad == nil {
+		return
+	}
+	ok := false
+	var at ssa.Instruction
+	for _, st := range fieldStores(f, ad, "Used") {
+		s := st.(*ssa.Store)
+		fa, isFA := s.Addr.(*ssa.FieldAddr)
+		if !isFA {
+			continue
+		}
+		// the entry comes from a comma-ok lookup in the listing map …
+		ex, isEx := fa.X.(*ssa.Extract)
+		if !isEx {
+			continue
+		}
+		lk, isLk := ex.Tuple.(*ssa.Lookup)
+		if !isLk || !lk.CommaOk {
+			continue
+		}
+		// … the store runs under ok == true and under the staking record's Used flag (or copies that flag)
+		gs := p.GuardsOf(st)
+		underOK := an.AnyAtom(gs, func(a an.Atom) bool {
+			e2, is := a.X.(*ssa.Extract)
+			return is && a.Op == token.ILLEGAL && a.Truth && e2.Tuple == ssa.Value(lk) && e2.Index == 1
+		})
+		usedFlag := func(v ssa.Value) bool {
+			ld, is := v.(*ssa.UnOp)
+			return is && isFieldLoad(ld, ad, "Used")
+		}
+		underUsed := an.AnyAtom(gs, func(a an.Atom) bool { return a.Op == token.ILLEGAL && a.Truth && a.X != nil && usedFlag(a.X) })
+		if underOK && (underUsed || usedFlag(s.Val)) {
+			ok = true
+			at = st
+		}
+	}
+	key := sk(f) + ":used-staking=>standard-used"
+	if ok {
+		c.OK(key, "a used staking record marks the listed standard entry used", posOf(c, at))
+	} else {
+		c.Fail(key, "the merge of staking-form records no longer marks an already listed standard entry as used when the staking record is used: after a restore (standard rows pre-registered with height 0) an address that only ever received staking deposits is listed unused although the chain pays it", p.Pos(f.Pos()))
+	}
+}
